@@ -47,12 +47,32 @@ var (
 	verifErrBody     = errors.New("body failed")
 )
 
+// verifWrapped: an error that wraps another (errors.Is sees through it)
+type verifWrapped struct{ inner error }
+
+func (w verifWrapped) Error() string { return "driver: " + w.inner.Error() }
+func (w verifWrapped) Unwrap() error { return w.inner }
+
 // H11a: atomicity of transactOnConn/transact for every body outcome x driver fault.
 func Verif_C11_transact() {
 	tx := &verifTx{}
 	beginFails := verifBool("beginFails")
 	if verifBool("commitFails") {
-		tx.commitErr = verifErrCommit
+		// whatever the driver reports: its own error, database/sql's "connection is
+		// gone" or "transaction has already been committed or rolled back" (the
+		// pool ended it underneath the caller), bare or wrapped
+		switch verifChoose("commitError", 4) {
+		case 0:
+			tx.commitErr = verifErrCommit
+		case 1:
+			tx.commitErr = sql.ErrConnDone
+		case 2:
+			tx.commitErr = sql.ErrTxDone
+			verifReach("commit-fails-txdone")
+		case 3:
+			tx.commitErr = verifWrapped{sql.ErrTxDone}
+			verifReach("commit-fails-txdone")
+		}
 	}
 	if verifBool("rollbackFails") {
 		tx.rollbackE = verifErrRollback
